@@ -6,6 +6,15 @@
 // cache-less server instance on an identical store.  The Lean driver replays the writes, evaluates the
 // reference oracle on the *current* store for every HIGHER request and checks that the HIGHER answers
 // are the answers for the current store; answers of cached requests may be stale (counted).
+//
+// Flags: the ListObjects engines are selected like in production — the streaming pipeline needs the experimental
+// flag pipeline_list_objects AND ListObjectsPipelineEnabled, the weighted reverse expansion the experimental flag
+// enable-list-objects-optimizations; the reference instance keeps the engine flags and drops every cache.
+// Ops: w (write), chk, bat, lo (unary ListObjects), slo (StreamedListObjects; the server gives the streamed
+// command no iterator cache today), warm (unary MINIMIZE_LATENCY ListObjects repeated until a request reaches
+// the datastore no more: the iterator cache stores its entries asynchronously), lu.  The ListObjects block of the
+// generator: warm, slo — write{delete the tuple behind a listed object, add a clone on a new object} — HIGHER lo,
+// slo, lu, chk — write{undo} — HIGHER lo, slo, lu, chk.
 package main
 
 import (
